@@ -556,7 +556,7 @@ func c03Exec(t *testing.T, r *kit.Run) func(wProg) kit.Outcome {
 		if p.Cfg.Root {
 			o.Classes = append(o.Classes, "root")
 		}
-		if fail != "" {
+		if fail != "" && res.Viol == nil {
 			o.Skip = true
 			fmt.Println("C03 bubble failure (not judged here):", firstLine(fail))
 			return o
@@ -829,7 +829,7 @@ func c02Exec(t *testing.T, r *kit.Run) func(wProg) kit.Outcome {
 		if obs.accepted > 0 {
 			o.Classes = append(o.Classes, "accepted-pub")
 		}
-		if fail != "" {
+		if fail != "" && res.Viol == nil {
 			o.Skip = true
 			fmt.Println("C02 bubble failure (not judged here):", firstLine(fail))
 			return o
